@@ -124,6 +124,8 @@ type chunkOutcome struct {
 	res     *WorkerResult
 	crashed bool
 	timeout bool
+	stalled bool // no case finished for the stall limit
+	aborted bool // not run (or stopped) because another worker of the run had hit the watchdog
 	lastNo  int
 	stderr  string
 	races   []raceReport
@@ -254,6 +256,17 @@ func RunDriver(p *Property, tier string, seed int64) int {
 	if v, err := strconv.Atoi(os.Getenv("QV_WATCHDOG_S")); err == nil && v > 0 {
 		watchdog = time.Duration(v) * time.Second
 	}
+	// a worker that does not finish a single case for this long is stopped (a spinning or dead-locked operation);
+	// like the watchdog this makes the run inconclusive, and it ends the run: the verdict cannot become "held" any more
+	stall := 6 * time.Minute
+	if tier == "thorough" {
+		stall = 20 * time.Minute
+	}
+	if v, err := strconv.Atoi(os.Getenv("QV_STALL_S")); err == nil && v > 0 {
+		stall = time.Duration(v) * time.Second
+	}
+	runCtx, abortRun := context.WithCancel(context.Background())
+	defer abortRun()
 
 	for si, st := range stages {
 		bin := flavourBin(st.Flavour)
@@ -294,8 +307,34 @@ func RunDriver(p *Property, tier string, seed int64) int {
 				ch := chunks[ci]
 				base := filepath.Join(workDir, fmt.Sprintf("s%d-c%d", si, ci))
 				outPath, logPath, errPath := base+".out.json", base+".log", base+".stderr"
-				ctx, cancel := context.WithTimeout(context.Background(), watchdog)
+				if runCtx.Err() != nil {
+					outcomes[ci] = chunkOutcome{chunk: ch, lastNo: -1, aborted: true}
+					return
+				}
+				ctx, cancel := context.WithTimeout(runCtx, watchdog)
 				defer cancel()
+				stalled := false
+				go func() {
+					// progress monitor: the worker writes the number of the case it is working on to logPath
+					last, lastChange := "", time.Now()
+					t := time.NewTicker(5 * time.Second)
+					defer t.Stop()
+					for {
+						select {
+						case <-ctx.Done():
+							return
+						case <-t.C:
+							b, _ := os.ReadFile(logPath)
+							if cur := string(b); cur != last {
+								last, lastChange = cur, time.Now()
+							} else if time.Since(lastChange) > stall {
+								stalled = true
+								cancel()
+								return
+							}
+						}
+					}
+				}()
 				cmd := exec.CommandContext(ctx, bin, "worker", "-prop", p.ID, "-tier", tier, "-seed", strconv.FormatInt(seed, 10),
 					"-stage", strconv.Itoa(si), "-from", strconv.Itoa(ch.from), "-to", strconv.Itoa(ch.to), "-out", outPath, "-log", logPath)
 				env := os.Environ()
@@ -314,8 +353,15 @@ func RunDriver(p *Property, tier string, seed int64) int {
 					ef.Close()
 				}
 				oc := chunkOutcome{chunk: ch, lastNo: -1}
-				if ctx.Err() == context.DeadlineExceeded {
+				switch {
+				case stalled:
+					oc.timeout, oc.stalled = true, true
+					abortRun()
+				case ctx.Err() == context.DeadlineExceeded:
 					oc.timeout = true
+					abortRun()
+				case runCtx.Err() != nil && ctx.Err() != nil:
+					oc.aborted = true
 				}
 				if b, rerr := os.ReadFile(outPath); rerr == nil {
 					var r WorkerResult
@@ -325,7 +371,7 @@ func RunDriver(p *Property, tier string, seed int64) int {
 				}
 				_ = err // a race build exits with status 66 when it reported races: the result file decides
 				if oc.res == nil || !oc.res.Done {
-					if !oc.timeout {
+					if !oc.timeout && !oc.aborted {
 						oc.crashed = true
 					}
 					if b, rerr := os.ReadFile(logPath); rerr == nil {
@@ -387,8 +433,12 @@ func RunDriver(p *Property, tier string, seed int64) int {
 				}
 				violations = append(violations, oc.res.Violations...)
 			}
-			if oc.timeout {
-				inconclusive = append(inconclusive, fmt.Sprintf("stage %s cases %d-%d: watchdog (%s) fired near case %d", st.Name, oc.chunk.from, oc.chunk.to, watchdog, oc.lastNo))
+			if oc.stalled {
+				inconclusive = append(inconclusive, fmt.Sprintf("stage %s cases %d-%d: no case finished for %s near case %d (operation does not terminate?); run stopped", st.Name, oc.chunk.from, oc.chunk.to, stall, oc.lastNo))
+			} else if oc.timeout {
+				inconclusive = append(inconclusive, fmt.Sprintf("stage %s cases %d-%d: watchdog (%s) fired near case %d; run stopped", st.Name, oc.chunk.from, oc.chunk.to, watchdog, oc.lastNo))
+			} else if oc.aborted {
+				total.Counters["chunks_not_run_after_watchdog"]++
 			} else if oc.crashed {
 				first := firstFatalLine(oc.stderr)
 				violations = append(violations, Violation{Key: "crash:" + crashKey(first), Msg: "worker process died: " + first, Stage: si, CaseNo: oc.lastNo, Stderr: oc.stderr})
